@@ -6,7 +6,9 @@ package hx
 import (
 	"encoding/json"
 	"fmt"
+	"sort"
 	"strconv"
+	"time"
 
 	"github.com/bmeg/grip/engine/logic"
 	"github.com/bmeg/grip/gdbi"
@@ -69,6 +71,20 @@ func ElemToDE(e map[string]interface{}) *gdbi.DataElement {
 	return de
 }
 
+var c08EngOnce *Eng
+var c08Loaded = map[string]bool{}
+
+func c08Eng() (*Eng, error) {
+	if c08EngOnce == nil {
+		e, err := NewEng("badger")
+		if err != nil {
+			return nil, err
+		}
+		c08EngOnce = e
+	}
+	return c08EngOnce, nil
+}
+
 // C08Exec runs one protocol op against the real code.
 func C08Exec(op map[string]interface{}) (obs map[string]interface{}) {
 	defer func() {
@@ -82,6 +98,53 @@ func C08Exec(op map[string]interface{}) (obs map[string]interface{}) {
 		var t gdbi.Traveler = &gdbi.BaseTraveler{}
 		t = t.AddCurrent(de)
 		return map[string]interface{}{"m": logic.MatchesHasExpression(t, ExprToPB(op["expr"].(map[string]interface{})))}
+	case "pipe":
+		// V().has(expr) through the PRODUCTION compiler and the pipeline on a stored graph: what the
+		// step keeps must be what the condition keeps element by element (anything the compiler does
+		// to the expression on the way — rewriting, simplifying, hoisting — must not change that)
+		eng, err := c08Eng()
+		if err != nil {
+			return map[string]interface{}{"bad": "engine: " + err.Error()}
+		}
+		elems := op["elems"].([]interface{})
+		eb, _ := json.Marshal(elems)
+		gname := fmt.Sprintf("g%x", fnv(string(eb)))
+		if !c08Loaded[gname] {
+			verts := []interface{}{}
+			for _, e := range elems {
+				m := e.(map[string]interface{})
+				verts = append(verts, map[string]interface{}{"gid": m["gid"], "label": m["label"], "data": Untag(m["data"])})
+			}
+			if err := eng.LoadGraph(gname, verts, nil); err != nil {
+				return map[string]interface{}{"bad": "load: " + err.Error()}
+			}
+			c08Loaded[gname] = true
+		}
+		stmts := []*gripql.GraphStatement{
+			{Statement: &gripql.GraphStatement_V{}},
+			{Statement: &gripql.GraphStatement_Has{Has: ExprToPB(op["expr"].(map[string]interface{}))}},
+		}
+		res := eng.RunQuery(gname, stmts, 20*time.Second)
+		switch {
+		case res.Err != nil:
+			return map[string]interface{}{"err": "compile"}
+		case res.Panic != "":
+			return map[string]interface{}{"panic": res.Panic}
+		case res.TimedOut:
+			return map[string]interface{}{"timeout": true}
+		}
+		kept := []string{}
+		for _, r := range res.Rows {
+			if v := r.GetVertex(); v != nil {
+				kept = append(kept, v.Gid)
+			}
+		}
+		sort.Strings(kept)
+		out := []interface{}{}
+		for _, k := range kept {
+			out = append(out, k)
+		}
+		return map[string]interface{}{"kept": out}
 	case "numtext":
 		f, err := strconv.ParseFloat(op["s"].(string), 64)
 		if err != nil {
@@ -277,6 +340,48 @@ func C08Gen(r *Run) {
 		}
 	}
 	r.AddSample(map[string]interface{}{"op": "match", "elem": c08Elem(elems[0]), "expr": all[len(all)-1]})
+	// 3b. the same Boolean combinations (over the well-formed leaves) as the has() step of a compiled
+	// traversal over a stored graph holding the elements
+	{
+		var wf func(e map[string]interface{}) bool
+		wf = func(e map[string]interface{}) bool {
+			if _, ok := e["none"]; ok {
+				return false
+			}
+			if c, ok := e["c"]; ok {
+				return c != "unset"
+			}
+			if x, ok := e["not"]; ok {
+				return wf(x.(map[string]interface{}))
+			}
+			for _, k := range []string{"and", "or"} {
+				if xs, ok := e[k]; ok {
+					for _, x := range xs.([]interface{}) {
+						if !wf(x.(map[string]interface{})) {
+							return false
+						}
+					}
+				}
+			}
+			return true
+		}
+		pe := []interface{}{}
+		for i, d := range elems {
+			pe = append(pe, map[string]interface{}{"gid": fmt.Sprintf("v%d", i), "label": "L", "data": Tag(d)})
+		}
+		n := 0
+		for _, e := range all {
+			if !wf(e) {
+				continue
+			}
+			n++
+			if r.Tier != "thorough" && n%2 == 0 && n > 400 {
+				continue
+			}
+			emit(map[string]interface{}{"op": "pipe", "elems": pe, "expr": e})
+			r.Dist["pipe"]++
+		}
+	}
 	// 4. random deeper expressions over random grid leaves
 	nrand := 3000
 	if r.Tier == "thorough" {
